@@ -21,6 +21,8 @@ from __future__ import annotations
 import json
 import warnings
 
+import numpy
+
 import rules
 from common import Err, cbool, clist, copt, cz, errkind  # noqa: F401
 
@@ -37,7 +39,8 @@ RULE = ("random rule systems (3-8 variables over the expression language of coq/
         "households leading/middle/trailing), inputs for the same keys in both, one request list; an interleaving of "
         "persons and one of groups (blocks, reversed blocks, order-preserving, arbitrary shuffle) and a permutation of "
         "situation 1; 4 real simulations per case (+1 through SimulationBuilder.build_from_entities with string ids for "
-        "every third case); non-trivial when a formula with a group operation was evaluated in the merged simulation "
+        "every third case); plus an oracle-only stream (1 in 6) on a monthly variable with the divide set-input rule: "
+        "explicit month inputs with many zeros, then a yearly amount, alone vs merged vs permuted; non-trivial when a formula with a group operation was evaluated in the merged simulation "
         "and returned an array; distinct by JSON text")
 TRUSTED = ["harness/rules.py: compiler from rule-system terms to real Variable subclasses (formulas call the public API)",
            "harness/c11.py: scatter-style construction of merged / permuted members_entity_id, members_role and input arrays"]
@@ -142,12 +145,37 @@ def gen_one(rng, profile, builder):
             "requests": rest, "builder": bool(builder)}
 
 
+def gen_divide(rng):
+    """Oracle-only stream: a monthly variable with the divide set-input rule; some months given
+    explicitly (many zeros, often a month where one whole situation is at zero), then a yearly amount."""
+    pop1, pop2 = rules.gen_pop(rng, 3), rules.gen_pop(rng, 3)
+    n1, n2 = len(pop1["ids"]), len(pop2["ids"])
+    year = rng.choice([2017, 2018, 2020])
+    months = sorted(rng.sample(range(1, 13), rng.randint(1, 4)))
+
+    def month_values(n):
+        if rng.random() < 0.5:
+            return [0] * n
+        return [rng.choice([0, 0, 120, 600, 1200]) for _ in range(n)]
+    m1 = [[m, month_values(n1)] for m in months]
+    m2 = [[m, month_values(n2)] for m in months]
+    y1 = [rng.choice([0, 1200, 2400, 13200]) for _ in range(n1)]
+    y2 = [rng.choice([0, 1200, 2400, 13200]) for _ in range(n2)]
+    pmode, f1, f2 = gen_interleaving(rng, n1, n2)
+    gmode, g1, g2 = gen_interleaving(rng, pop1["count"], pop2["count"])
+    return {"kind": "divide", "pop1": pop1, "pop2": pop2, "year": year, "months1": m1, "months2": m2,
+            "year1": y1, "year2": y2, "f1": f1, "f2": f2, "g1": g1, "g2": g2, "modes": [pmode, gmode],
+            "sp": gen_perm(rng, n1), "sg": gen_perm(rng, pop1["count"])}
+
+
 def generate(rng, tier):
     n = {"quick": 300, "escalated": 600, "thorough": 4000}[tier]
     cases = []
     for k in range(n):
         profile = SPIRAL_PROFILE if k % 12 == 11 else (GROUP_PROFILE if k % 2 == 0 else PROFILE)
         cases.append(gen_one(rng, profile, builder=(k % 3 == 0)))
+    for _ in range(n // 5):
+        cases.append(gen_divide(rng))
     return cases
 
 
@@ -278,7 +306,84 @@ def builder_applicable(case):
 # implementation driver
 # ---------------------------------------------------------------------------------------
 
+def run_divide_one(pop, months, yearly, year):
+    """set the months, then the year (set_input_divide_by_period spreads what remains over the months
+    that are not known), read the twelve months of the person variable and of its household sum"""
+    from openfisca_core import holders, periods
+    from openfisca_core.variables import Variable
+    tbs = rules.build_system({"vars": [], "params": []}, set())
+    person, household = tbs.person_entity, tbs.group_entities[0]
+
+    class sal(Variable):
+        value_type = float
+        entity = person
+        definition_period = periods.DateUnit.MONTH
+        set_input = holders.set_input_divide_by_period
+
+    class total(Variable):
+        value_type = float
+        entity = household
+        definition_period = periods.DateUnit.MONTH
+
+        def formula(hh, period, parameters):
+            return hh.sum(hh.members("sal", period))
+
+    tbs.add_variable(sal)
+    tbs.add_variable(total)
+    sim = rules.build_simulation(tbs, pop, {}, {"max_loops": 1})
+    for m, a in months:
+        sim.set_input("sal", f"{year}-{m:02d}", numpy.array(a, dtype=float))
+    sim.set_input("sal", str(year), numpy.array(yearly, dtype=float))
+    out = []
+    for m in range(1, 13):
+        out.append([[float(x) for x in sim.calculate("sal", f"{year}-{m:02d}")],
+                    [float(x) for x in sim.calculate("total", f"{year}-{m:02d}")]])
+    return out
+
+
+def run_divide(case):
+    n1, n2 = len(case["pop1"]["ids"]), len(case["pop2"]["ids"])
+    mm = [[m, scatter([(case["f1"], a1), (case["f2"], a2)], n1 + n2)]
+          for (m, a1), (_m, a2) in zip(case["months1"], case["months2"])]
+    pm = [[m, scatter([(case["sp"], a1)], n1)] for m, a1 in case["months1"]]
+    runs = []
+    with warnings.catch_warnings():
+        warnings.simplefilter("ignore")
+        for pop, months, yearly in (
+                (case["pop1"], case["months1"], case["year1"]),
+                (case["pop2"], case["months2"], case["year2"]),
+                (merged_pop(case), mm, scatter([(case["f1"], case["year1"]), (case["f2"], case["year2"])], n1 + n2)),
+                (permuted_pop(case), pm, scatter([(case["sp"], case["year1"])], n1))):
+            try:
+                runs.append(run_divide_one(pop, months, yearly, case["year"]))
+            except Exception as e:  # noqa: BLE001
+                runs.append(Err(errkind(e), f"{type(e).__name__}: {e}"[:200]))
+    return {"divide": runs}
+
+
+def oracle_divide(case, obs):
+    a1, a2, m, p = obs["divide"]
+    n1, n2 = len(case["pop1"]["ids"]), len(case["pop2"]["ids"])
+    c1, c2 = case["pop1"]["count"], case["pop2"]["count"]
+    for tag, big, small, fp, fg, nb, cb in (
+            ("merged-vs-situation1", m, a1, case["f1"], case["g1"], n1 + n2, c1 + c2),
+            ("merged-vs-situation2", m, a2, case["f2"], case["g2"], n1 + n2, c1 + c2),
+            ("permuted", p, a1, case["sp"], case["sg"], n1, c1)):
+        if isinstance(small, Err):
+            return f"driver: the situation alone fails: {small.kind} {small.msg}"
+        if isinstance(big, Err):
+            return f"{tag}-divide-rule: together {big!r} {big.msg}, alone {len(small)} months of values"
+        for k, (ob, os_) in enumerate(zip(big, small)):
+            msg = (compare_arrays(f"{tag}-divide-rule: month {k + 1} of the spread variable", ob[0], os_[0], fp, nb)
+                   or compare_arrays(f"{tag}-divide-rule: month {k + 1} of the household sum", ob[1], os_[1], fg, cb))
+            if msg:
+                return msg
+    return None
+
+
 def run_impl(case):
+    if case.get("kind") == "divide":
+        return run_divide(case)
     rest = case["requests"]
     runs = []
     mp, minp = merged_pop(case), merged_inputs(case)
@@ -304,6 +409,8 @@ def run_impl(case):
 
 
 def obs_for_coq(case, obs):
+    if case.get("kind") == "divide":
+        return "skip"          # oracle-only stream (the set-input rules are C16's model)
     if obs == "skip" or isinstance(obs, Err):
         return obs
     return obs["runs"]
@@ -322,7 +429,7 @@ def cinputs(inp):
 
 
 def coq_case(case):
-    if _key(case) in _SKIP:
+    if case.get("kind") == "divide" or _key(case) in _SKIP:
         return "CSkip"
     return (f"(CInd {rules.csys(case['sys'], None)} {rules.cpop(case['pop1'])} {rules.cpop(case['pop2'])} "
             f"{cinputs(case['inp1'])} {cinputs(case['inp2'])} "
@@ -392,6 +499,8 @@ def oracle(case, obs):
         return None
     if isinstance(obs, Err):
         return f"driver: {obs.kind} {obs.msg}"
+    if case.get("kind") == "divide":
+        return oracle_divide(case, obs)
     a1, a2, m, p = obs["runs"]
     n1, n2 = len(case["pop1"]["ids"]), len(case["pop2"]["ids"])
     c1, c2 = case["pop1"]["count"], case["pop2"]["count"]
@@ -430,6 +539,8 @@ def oracle(case, obs):
 def nontrivial(case, obs):
     if obs == "skip" or isinstance(obs, Err):
         return False
+    if case.get("kind") == "divide":
+        return not any(isinstance(r, Err) for r in obs["divide"])
     if not (rules.has_tag(case["sys"], "agg") or rules.has_tag(case["sys"], "project") or rules.has_tag(case["sys"], "nb")):
         return False
     m = obs["runs"][2]
@@ -462,6 +573,8 @@ def kinded(sys):
 
 
 def classify(case, obs):
+    if case.get("kind") == "divide":
+        return "divide-rule (oracle only)" + ("" if isinstance(obs, dict) else " driver-error")
     if not kinded(case["sys"]):
         return "NOT-KINDED (outside the theorems' hypothesis)"
     if obs == "skip":
@@ -477,6 +590,8 @@ def classify(case, obs):
 
 def shrink(case, still_fails):
     """drop requests, then inputs, while the oracle still fails"""
+    if case.get("kind") == "divide":
+        return None
     cur = json.loads(json.dumps(case))
     changed = True
     while changed:
